@@ -188,3 +188,19 @@ package filters
 //@ at call places #1 assert dflt: arg0 == 0
 //@ at call places #1: pl = result
 //@ ensures halfUp: same(result, fdiv(math.Floor(fadd(fmul(n, math.Pow10(pl)), 0.5)), math.Pow10(pl)))
+
+// join (C18, C15): every element is unwrapped (ToLiquid) before it is formatted, nil elements
+// are skipped, order is kept, the input is not written
+//@ func filters.joinFilter
+//@ props C18 C15 C03 C01
+//@ panics values.TypeError
+//@ requires args: sep != nil
+//@ assigns alloc S$Str, alloc S$Val
+//@ ghost n Int = 0
+//@ ghost cur Val = nil
+//@ at call ToLiquid #1 before assert inOrder: arg0 == a[n] && n < len(a)
+//@ at call ToLiquid #1: n = n + 1
+//@ at call ToLiquid #1: cur = result
+//@ at call Sprint #1 before assert unwrapped: len(arg0) == 1 && arg0[0] == cur && cur != nil
+//@ loop 1 invariant count: n == _i && fresh(ss) && sameold("S$Val")
+//@ ensures all: n == len(a)
